@@ -102,9 +102,21 @@ func runC18(c *Ctx) {
 					fr2, ok := core.FieldOfValue(u)
 					return ok && fr2.Base == fr.Base
 				}
-				var classify func(x ssa.Value, depth int) (kind, why string)
-				classify = func(x ssa.Value, depth int) (string, string) {
-					if depth > 6 {
+				// the classification runs in a context: the system that proves emptiness, the point at which it must hold,
+				// and what counts as "the current window" (in a pure helper: the parameter that receives it)
+				type wctx struct {
+					l     *core.Lin
+					at    ssa.Instruction
+					isCur func(x ssa.Value) bool
+				}
+				var classifyIn func(cx wctx, x ssa.Value, depth int) (kind, why string)
+				classify := func(x ssa.Value, depth int) (string, string) {
+					return classifyIn(wctx{l, st, isCur}, x, depth)
+				}
+				classifyIn = func(cx wctx, x ssa.Value, depth int) (string, string) {
+					classify := func(x ssa.Value, depth int) (string, string) { return classifyIn(cx, x, depth) }
+					isCur := cx.isCur
+					if depth > 8 {
 						return "bad", "too deep"
 					}
 					switch v := x.(type) {
@@ -132,6 +144,48 @@ func runC18(c *Ctx) {
 							return "window", ""
 						}
 						return "bad", "a slice of " + describe(x) + ", not of the current window: an allocation that earlier views still point into is re-exposed and will be overwritten by the next read"
+					case *ssa.Parameter:
+						if isCur(x) {
+							return "window", ""
+						}
+						return "bad", "parameter " + v.Name() + ", which is not the current window"
+					case *ssa.Call:
+						// a pure helper of the package that computes the next window from the current one
+						// (nextWindow(reader.Msg, size)): each of its results is classified in its own terms
+						h := core.StaticCallee(v)
+						if h == nil || !c.P.InPkg(h, "buffer") || h.Blocks == nil || h.Signature.Results().Len() != 1 {
+							break
+						}
+						curParams := map[*ssa.Parameter]bool{}
+						for i, a := range v.Call.Args {
+							if i >= len(h.Params) {
+								continue
+							}
+							if _, isSl := a.Type().Underlying().(*types.Slice); !isSl {
+								continue
+							}
+							k, w := classify(a, depth+1)
+							if k != "window" {
+								return "bad", "the helper " + fname(h) + " receives " + describe(a) + ", not the current window" + w
+							}
+							curParams[h.Params[i]] = true
+						}
+						hl := core.NewLin(c.P, h, mods, sum)
+						kind := ""
+						for _, r := range returns(h) {
+							hcx := wctx{hl, r, func(x ssa.Value) bool { p, ok := x.(*ssa.Parameter); return ok && curParams[p] }}
+							k, w := classifyIn(hcx, r.Results[0], depth+1)
+							if k == "bad" {
+								return k, w
+							}
+							if kind == "" || k == "window" {
+								kind = k
+							}
+						}
+						if kind != "" {
+							R.Analysed(fname(h))
+							return kind, ""
+						}
 					case *ssa.Slice:
 						k, w := classify(v.X, depth+1)
 						switch {
@@ -142,14 +196,18 @@ func runC18(c *Ctx) {
 						case v.High == nil && v.Max == nil:
 							return "window", "" // left-advance: never starts before its operand
 						default:
-							// every window-derived source of the operand is empty here
+							// the operand as a whole is provably empty here (merges are proved edge by edge) ...
+							if cx.l.Prove(cx.at, cx.l.LenOf(v.X), core.Zero, 0) {
+								return "window", ""
+							}
+							// ... or every window-derived source of the operand is
 							var srcs []ssa.Value
 							leaves(v.X, map[ssa.Value]bool{}, &srcs)
 							for _, src := range srcs {
 								if sk, _ := classify(src, depth+1); sk != "window" {
 									continue
 								}
-								if !l.Prove(st, l.LenOf(src), core.Zero, 0) {
+								if !cx.l.Prove(cx.at, cx.l.LenOf(src), core.Zero, 0) {
 									return "bad", "re-sliced with an upper bound (" + describe(v.X) + "[:h]) while not provably empty: bytes of the current or an earlier message are re-exposed to the next read (right-truncation / rewind)"
 								}
 							}
